@@ -210,6 +210,9 @@ func visitInstr(fr *frame, instr ssa.Instruction) continuation {
 				if p == nil {
 					panic(targetRuntimePanic{"invalid memory address or nil pointer dereference", cur.posStr(instr.Pos())})
 				}
+				if cur.alog != nil {
+					cur.access(p, false, false)
+				}
 			}
 		} else if sx, ok := x.(sym); ok {
 			fr.env[instr] = symUnop(instr.Op, sx)
@@ -333,6 +336,9 @@ func visitInstr(fr *frame, instr ssa.Instruction) continuation {
 			addr = fr.env[instr].(*value)
 		}
 		*addr = zero(mustDeref(instr.Type()))
+		if instr.Heap && cur.alog != nil {
+			cur.own(addr, 0)
+		}
 
 	case *ssa.MakeSlice:
 		capv := asInt64(concretize(fr.get(instr.Cap)))
@@ -346,6 +352,9 @@ func visitInstr(fr *frame, instr ssa.Instruction) continuation {
 			slice[i] = zero(tElt)
 		}
 		fr.env[instr] = slice[:lenv]
+		if cur.alog != nil {
+			cur.own(slice, 0)
+		}
 
 	case *ssa.MakeMap:
 		var reserve int64
@@ -454,6 +463,9 @@ func visitInstr(fr *frame, instr ssa.Instruction) continuation {
 		}
 
 	case *ssa.Lookup:
+		if mm, ok := fr.get(instr.X).(map[value]value); ok && cur.alog != nil && mm != nil {
+			cur.accessMap(mapID(mm), false)
+		}
 		if mm, ok := fr.get(instr.X).(map[value]value); ok {
 			if ss, ok := fr.get(instr.Index).(symStr); ok {
 				if ks, still := mkStr(ss).(symStr); still {
@@ -487,6 +499,9 @@ func visitInstr(fr *frame, instr ssa.Instruction) continuation {
 		case map[value]value:
 			if m == nil {
 				panic(targetRuntimePanic{"assignment to entry in nil map", cur.posStr(instr.Pos())})
+			}
+			if cur.alog != nil {
+				cur.accessMap(mapID(m), true)
 			}
 			old, had := m[key]
 			cur.undoFns = append(cur.undoFns, func() {
